@@ -215,3 +215,11 @@ CHECKS["C05"] = dict(
         "services are type-checked (must compile) but not executed end-to-end in this check",
     ],
 )
+
+
+def _post_c05(tier, merged, rundir, infra):
+    merged["extra"]["programs"] = int(merged["evaluations"])
+    merged["extra"]["disagreements_checked"] = int(merged["labels"].get("value-checks", 0))
+
+
+CHECKS["C05"]["post"] = _post_c05
